@@ -1,2 +1,14 @@
 import JominiModel.Props.C03
+<<<<<<< HEAD
 #print axioms Jomini.Props.C03.C03_nextState_table
+=======
+open Jomini.Props.C03
+#print axioms C03_nextState_table
+#print axioms C03_plain_id_not_typed
+#print axioms C03_key_fastpath_sim
+#print axioms C03_iter_sim
+#print axioms C03_fast_eq_reference
+#print axioms C03_delimited
+#print axioms C03_delimited_links
+#print axioms C03_faithful_partial
+>>>>>>> agent/bintape
